@@ -1,3 +1,39 @@
 import TTModel.Proto
-/-! C05 driver — stub (not built yet): answers `bad-op` to everything. -/
-def main : IO Unit := TT.Proto.mainLoop fun _ => "bad-op"
+import TTModel.C05_SiteModel
+/-! C05 driver: the site models of `TTModel/C05_SiteModel.lean` executed at `Float`.
+Requests (floats as 16-hex-digit bit patterns, `-` = parameter absent):
+  `const <mu|->`, `inv <p> <mu|->`, `weibull <K> <shape> <inv|-> <mu|->`, `quantile <K>`
+Reply: `<n> <probs…> <rates…> <meanRate> <probSum>` -/
+open TT TT.Proto TT.C05
+
+instance : NatCast Float := ⟨Float.ofNat⟩
+
+def optFloat (s : String) : Option (Option Float) :=
+  if s = "-" then some none else (parseFloatBits s).map some
+
+def showSM (s : SM Float) : String :=
+  let ps := (List.finRange s.n).map fun i => floatBits (s.probs i)
+  let rs := (List.finRange s.n).map fun i => floatBits (s.rates i)
+  " ".intercalate ([toString s.n] ++ ps ++ rs ++ [floatBits s.meanRate, floatBits s.probSum])
+
+def handle (line : String) : String :=
+  match splitWords line with
+  | ["const", mu] =>
+    match optFloat mu with
+    | some mu => showSM (constant mu)
+    | none => "bad-op"
+  | ["inv", p, mu] =>
+    match parseFloatBits p, optFloat mu with
+    | some p, some mu => showSM (invariant p mu)
+    | _, _ => "bad-op"
+  | ["weibull", k, shape, inv, mu] =>
+    match k.toNat?, parseFloatBits shape, optFloat inv, optFloat mu with
+    | some k, some shape, some inv, some mu => showSM (weibull k shape inv mu)
+    | _, _, _, _ => "bad-op"
+  | ["quantile", k] =>
+    match k.toNat? with
+    | some k => " ".intercalate ((List.finRange k).map fun i => floatBits (quantile (α := Float) k i))
+    | none => "bad-op"
+  | _ => "bad-op"
+
+def main : IO Unit := mainLoop handle
